@@ -1,7 +1,7 @@
 """C17 — configuration entries reach exactly the modules they address.
 
 Script `inc_at op*` (strings = length-prefixed UTF-8 bytes; see harness/src/bin/props.rs, coq/Props/Model.v `run`):
-  1 <key> val | 2 <path> | 3 m <name> ty | 4 m <name> ty val | 5 m <name> | 6 <key> val (late include)
+  1 <key> val | 12 <key> form n (<sub> val)*n (mapping-valued entry, form even = flow, odd = block YAML) | 2 <path> | 3 m <name> ty | 4 m <name> ty val | 5 m <name> | 6 <key> val (late include)
   | 7 at (the entries that follow form a separate include, issued once `at` modules exist)
   | 8 m <name> ty (typed handle, kept) | 9 h val (set through handle h) | 10 h (get through handle h) | 11 m <name> (clear)
 """
@@ -42,7 +42,10 @@ CLAIM = dict(
          "the tie to the code; serde_yml's parser (exercised, not modelled: the model starts from the ordered key/value list and "
          "rejects repeated keys as the parser does); values are unsigned integers; keys are YAML strings. KNOWN FINDING "
          "entry_at_wildcard_prefix: `a: 1` next to `a.<any>.x: 2` makes the wildcard entry disappear (module a.z does not receive x) "
-         "- excluded by hypothesis, witness in coq/Refuted/C17.v, re-demonstrated on every run. Outside the quantifier (no property "
+         "- excluded by hypothesis, witness in coq/Refuted/C17.v, re-demonstrated on every run; the suppression is narrow: only when "
+         "the implementation's output equals the model's AND the only complaints are 'a module does not receive a property addressed "
+         "solely by entries K.<any>.R with a partner K in their include' - any other complaint on the same input (foreign entry, "
+         "wrong or '<any>'-carrying value, empty name) and any model/implementation difference is reported. Outside the quantifier (no property "
          "name / malformed keys): keys ending in '<any>', empty segments, '<any>' inside a segment - checked for crashes and "
          "model/code agreement only. Looking a property up before include_cfg creates an empty slot that blocks the later "
          "configuration value (Props::set keeps the first entry): modelled and exercised (late stream), accepted by the monitor "
@@ -54,7 +57,10 @@ CLAIM = dict(
 RULE = ("scripts = flat configuration (1..12 dotted keys over a segment alphabet built to share byte prefixes: a, ab, abc, "
         "a-b, é, aé, alice, alicent; '<any>' at every depth; property names that are themselves module names or dotted) + "
         "1..6 module paths of depth 1..4 (addressed modules, their prefix-sharing siblings, ancestors, descendants) + include "
-        "position (before / between / after node creation) + typed read/write/raw operations; 20% handle stream: two or three "
+        "position (before / between / after node creation) + typed read/write/raw operations; 14% mapping stream: mapping-valued "
+        "entries (hand-nested YAML in flow and block form, 0..3 real sub-keys) keyed K next to a wildcard entry K.<any>.R (either "
+        "order, at top level and below a wildcard) and plain ones, with the modules above K (the mapping is a property), at K (its "
+        "sub-keys are properties) and below K; 17% handle stream: two or three "
         "typed handles Prop<T> of different types for one (mostly still absent) property are created before its first write and "
         "kept, then written/read through in random order, interleaved with fresh typed lookups, RawProp::clear and re-typing "
         "(stale handles); 28% multi-include stream: the "
@@ -68,7 +74,10 @@ RULE = ("scripts = flat configuration (1..12 dotted keys over a segment alphabet
         "non-trivial = distinct script (sha1) hitting at least two targeted mechanisms")
 TRUSTED = ["YAML text -> serde_yml::Value (parser) is exercised by the harness but not modelled: the model starts from the "
            "ordered key/value list, rejecting duplicate keys as the parser does",
-           "configuration values are unsigned integers (opaque ids); keys are always YAML strings",
+           "configuration values are unsigned integers (opaque ids) or one-level mappings of such; keys are always YAML strings; "
+           "the theorems speak about the flat number-valued configurations (C17_cfg_new_v_numbers), mapping-valued entries are "
+           "modelled byte-exactly, correspondence-checked and monitored (value of a property = value of a matching entry, no "
+           "synthesised '<any>' node inside a value) but not covered by a theorem",
            "FxHashMap iteration order of Props is canonicalised by sorting; insertion order of serde_yml::Mapping (indexmap, "
            "swap_remove) is modelled exactly"]
 ASSUMPTIONS = ["names consist of printable ASCII and two-byte UTF-8 sequences; module path segments are non-empty and distinct "
@@ -89,7 +98,14 @@ def lp(b):
     return [len(b)] + list(b)
 
 
-def e_entry(key, val): return [1] + lp(key) + [val]
+def e_entry(key, val):
+    """val: a number, or ("M", form, ((sub-key, number), ...)) for a mapping-valued entry"""
+    if isinstance(val, tuple):
+        out = [12] + lp(key) + [val[1], len(val[2])]
+        for sk, sv in val[2]:
+            out += lp(sk) + [sv]
+        return out
+    return [1] + lp(key) + [val]
 def e_module(path): return [2] + lp(path)
 def e_read(m, name, ty): return [3, m] + lp(name) + [ty]
 def e_write(m, name, ty, v): return [4, m] + lp(name) + [ty, v]
@@ -131,6 +147,18 @@ def split(script):
             j = min(i + 3, n)
         elif t == 11:
             j = take(i + 2)
+        elif t == 12:
+            j = take(i + 1)
+            if j is not None:
+                cnt = script[j + 1] if j + 1 < n else 0
+                j = min(j + 2, n)
+                for _ in range(cnt):
+                    if j >= n:
+                        break
+                    j2 = take(j)
+                    if j2 is None:       # truncated sub-key: the runners take what is left
+                        j = n; break
+                    j = min(j2 + 1, n)
         else:
             j = None
         if j is None:
@@ -150,14 +178,44 @@ def _b(xs):
     return bytes(x & 255 for x in xs)
 
 
+def _entry(o):
+    """(key, value) of an entry op (tag 1 or 12)"""
+    key = _b(o[2:2 + o[1]])
+    if o[0] == 1:
+        return key, (o[-1] if len(o) > 2 + o[1] else 0)
+    i = 2 + o[1]
+    form = o[i] if i < len(o) else 0
+    cnt = o[i + 1] if i + 1 < len(o) else 0
+    i += 2; subs = []
+    for _ in range(cnt):
+        if i >= len(o):
+            break
+        ln = o[i]; sk = _b(o[i + 1:i + 1 + ln]); i += 1 + ln
+        sv = o[i] if i < len(o) else 0
+        i += 1
+        subs.append((sk, sv))
+    return key, ("M", form, tuple(subs))
+
+
+def is_map(v):
+    return isinstance(v, tuple)
+
+
+def enc(v):
+    """a configuration value in the form the dumps are decoded to"""
+    if is_map(v):
+        return (1, tuple((sk, (0, sv)) for sk, sv in v[2]))
+    return (0, v)
+
+
 def parse(script):
     """-> (inc_at, entries [(key, val)], paths [bytes], late ops in order: typed accesses (3|4|5, m, name, ..) and
     late includes (6, None, key, val))"""
     hdr, ops = split(script)
     entries, paths, tops = [], [], []
     for o in ops:
-        if o[0] == 1:
-            entries.append((_b(o[2:2 + o[1]]), o[-1]))
+        if o[0] in (1, 12):
+            entries.append(_entry(o))
         elif o[0] == 2:
             paths.append(_b(o[2:2 + o[1]]))
         elif o[0] == 3:
@@ -184,21 +242,35 @@ def parse_groups(script):
     hdr, ops = split(script)
     groups = [(hdr[0] if hdr else 0, [])]
     for o in ops:
-        if o[0] == 1:
-            groups[-1][1].append((_b(o[2:2 + o[1]]), o[-1]))
+        if o[0] in (1, 12):
+            groups[-1][1].append(_entry(o))
         elif o[0] == 7:
             groups.append((o[1] if len(o) > 1 else 0, []))
     return groups
 
 
+def yaml_ok(es):
+    """the YAML parser rejects a mapping with a repeated key, on either level"""
+    ks = [k for k, _ in es]
+    if len(set(ks)) != len(ks):
+        return False
+    return all(len(set(sk for sk, _ in v[2])) == len(v[2]) for _, v in es if is_map(v))
+
+
 def accepted(groups):
-    """entries of the includes the YAML parser accepts (no repeated key inside one include)"""
+    """entries of the includes the YAML parser accepts"""
     out = []
     for _, es in groups:
-        ks = [k for k, _ in es]
-        if len(set(ks)) == len(ks):
+        if yaml_ok(es):
             out += es
     return out
+
+
+def show(v):
+    if is_map(v):
+        body = ", ".join("%s: %d" % (_s(sk), sv) for sk, sv in v[2])
+        return "{%s}" % body if v[1] % 2 == 0 or not v[2] else "{|%s|}" % body
+    return "%d" % v
 
 
 def _s(b):
@@ -209,9 +281,9 @@ def pretty(script):
     inc, entries, paths, tops = parse(script)
     gs = parse_groups(script)
     if len(gs) == 1:
-        cfg = "; ".join("%s: %d" % (_s(k), v) for k, v in entries)
+        cfg = "; ".join("%s: %s" % (_s(k), show(v)) for k, v in entries)
     else:
-        cfg = " | ".join("@%d: " % at + "; ".join("%s: %d" % (_s(k), v) for k, v in es) for at, es in gs)
+        cfg = " | ".join("@%d: " % at + "; ".join("%s: %s" % (_s(k), show(v)) for k, v in es) for at, es in gs)
     mods = ", ".join(_s(p) for p in paths)
     t = []
     for o in tops:
@@ -227,19 +299,37 @@ def pretty(script):
 
 
 # ----------------------------------------------------------------------------- the specification (C17 itself)
-def spec(entries, path):
-    """property name -> set of admissible values, for the module with dotted path `path`:
+def flatten(entries):
+    """[(flat key, encoded value, source key, min depth)]: a mapping-valued entry K: {s: v} is itself an entry (for a module
+    above K the property named by the rest of K holds the mapping) and is the hand-nested form of K.s: v for the modules at
+    or below K (module paths of at least len(K) segments)"""
+    out = []
+    for k, v in entries:
+        out.append((k, enc(v), k, 0))
+        if is_map(v):
+            for sk, sv in v[2]:
+                out.append((k + b"." + sk, (0, sv), k, len(k.split(b"."))))
+    return out
+
+
+def spec_src(entries, path):
+    """property name -> [(admissible value, key of the entry it comes from)] for the module with dotted path `path`:
     an entry contributes iff its key is (segments matching the path, '<any>' = exactly one segment) + (property name)."""
     p = path.split(b".")
     res = {}
-    for k, v in entries:
+    for k, v, src, depth in flatten(entries):
         ks = k.split(b".")
-        if len(ks) <= len(p):
+        if len(ks) <= len(p) or len(p) < depth:
             continue
         q, r = ks[:len(p)], ks[len(p):]
         if all(a == ANY or a == b for a, b in zip(q, p)) and ANY not in r:
-            res.setdefault(b".".join(r), set()).add(v)
+            res.setdefault(b".".join(r), []).append((v, src))
     return res
+
+
+def spec(entries, path):
+    """property name -> set of admissible numbers (scalar entries; the form used by the typed clauses and generators)"""
+    return {name: set(v[1] for v, _ in vs if v[0] == 0) for name, vs in spec_src(entries, path).items()}
 
 
 def valid(script):
@@ -256,8 +346,9 @@ def valid(script):
         pass  # trailing garbage is ignored by both runners
     if not script:
         return False
-    for k, _ in entries:
+    for k, v in entries:
         if not okb(k): return False
+        if is_map(v) and not all(okb(sk) for sk, _ in v[2]): return False
     for p in paths:
         if not okb(p) or any(s == b"" for s in p.split(b".")): return False
     if len(set(paths)) != len(paths): return False
@@ -267,6 +358,11 @@ def valid(script):
 def wf_key(k):
     ss = k.split(b".")
     return all(x != b"" and (x == ANY or ANY not in x) for x in ss) and ss[-1] != ANY
+
+
+def wf_entry(k, v):
+    """inside the quantifier (extended to hand-nested mappings): well-formed key; sub-keys well-formed and wildcard free"""
+    return wf_key(k) and (not is_map(v) or all(wf_key(sk) and ANY not in sk for sk, _ in v[2]))
 
 
 def known_pair(k1, k2):
@@ -386,26 +482,48 @@ def walk(script, out):
 
 
 # ----------------------------------------------------------------------------- monitor
-def check_capture(entries, path, dump, where):
-    want = spec(entries, path)
+def _norm(v):
+    """mappings are compared without regard to the order of their entries"""
+    if v[0] == 1:
+        return (1, tuple(sorted((k, _norm(x)) for k, x in v[1])))
+    return v
+
+
+def has_partner(src, groups):
+    """src = K.<any>.R and its include also holds an entry keyed exactly K: the pair of the known finding"""
+    for _, es in groups:
+        ks = [k for k, _ in es]
+        if src in ks and any(known_pair(k, src) for k in ks):
+            return True
+    return False
+
+
+def check_capture(entries, groups, path, dump, where):
+    """-> [(kind, message)]; kind 'known' = exactly what the known finding entry_at_wildcard_prefix says: the module does not
+    receive a property that only entries K.<any>.R with a partner entry K in their include address"""
+    want = spec_src(entries, path)
+    out = []
     got = {}
     for k, v in dump:
         if k in got:
-            return "%s: module %s lists property %r twice" % (where, _s(path), _s(k))
+            out.append(("twice", "%s: module %s lists property %r twice" % (where, _s(path), _s(k))))
         got[k] = v
     for k in got:
         if k not in want:
-            return "%s: module %s received property '%s' = %s but no entry addresses it (foreign or synthesised entry)" % (
-                where, _s(path), _s(k), got[k])
+            out.append(("foreign", "%s: module %s received property '%s' = %s but no entry addresses it (foreign or synthesised "
+                        "entry)" % (where, _s(path), _s(k), got[k])))
     for k in want:
         if k not in got:
-            return "%s: module %s did not receive property '%s' although an entry addresses it (values %s)" % (
-                where, _s(path), _s(k), sorted(want[k]))
+            if all(v == (1, ()) for v, _ in want[k]):
+                continue     # an empty mapping holds no data: its presence as a property is not demanded
+            kind = "known" if all(has_partner(src, groups) for _, src in want[k]) else "miss"
+            out.append((kind, "%s: module %s did not receive property '%s' although an entry addresses it (values %s)" % (
+                where, _s(path), _s(k), sorted(str(v) for v, _ in want[k]))))
     for k, v in got.items():
-        if v[0] != 0 or v[1] not in want[k]:
-            return "%s: module %s property '%s' has value %s, not the value of a matching entry %s" % (
-                where, _s(path), _s(k), v, sorted(want[k]))
-    return None
+        if k in want and _norm(v) not in [_norm(x) for x, _ in want[k]]:
+            out.append(("value", "%s: module %s property '%s' has value %s, not the value of a matching entry %s" % (
+                where, _s(path), _s(k), v, sorted(str(x) for x, _ in want[k]))))
+    return out
 
 
 def enc_typed(ty, v):
@@ -562,60 +680,78 @@ def check_typed(entries, paths, dumps, tops, res, final, where):
     return None
 
 
-def monitor(script, out):
-    """C17 evaluated on the implementation's output alone (the specification, not the model)."""
+def _monitor(script, out):
+    """-> (message | None, kind).  Every complaint is collected; one that is NOT of the known finding's kind is reported first,
+    so that a different violation on an input that also shows the known finding is never hidden."""
     if not valid(script):
-        return None if out == [7] else "malformed script was not rejected: %s" % out[:8]
+        return (None, None) if out == [7] else ("malformed script was not rejected: %s" % out[:8], "other")
     try:
         w = walk(script, out)
     except (Bad, IndexError) as e:
-        return "malformed output: %s" % e
+        return "malformed output: %s" % e, "other"
     if w is None:
-        return "valid script rejected"
+        return "valid script rejected", "other"
     _, _, paths, tops = parse(script)
     groups = parse_groups(script)
     entries = accepted(groups)     # the union of all accepted includes: what the iff is computed from
-    keys = [k for k, _ in entries]
     p1, flag, d1, r1, f1 = w["l1"]
     p2, d2, r2, f2 = w["l2"]
     if p1 is not None:
-        return "capture panicked (des_net_utils::props)"
+        return "capture panicked (des_net_utils::props)", "other"
     if p2 is not None:
-        return "include_cfg / node creation panicked"
+        return "include_cfg / node creation panicked", "other"
     for path, a, b in zip(paths, d1, d2):
         if sorted(k for k, _ in a) != sorted(k for k, _ in b):
-            return "module %s: property set depends on when the configurations are included relative to node creation: %s vs %s" % (
-                _s(path), sorted(_s(k) for k, _ in a), sorted(_s(k) for k, _ in b))
+            return ("module %s: property set depends on when the configurations are included relative to node creation: %s vs %s" % (
+                _s(path), sorted(_s(k) for k, _ in a), sorted(_s(k) for k, _ in b))), "other"
     if len(flag) != len(groups):
-        return "malformed output: %d include flags for %d includes" % (len(flag), len(groups))
+        return "malformed output: %d include flags for %d includes" % (len(flag), len(groups)), "other"
     for (at, es), fl in zip(groups, flag):
-        ks = [k for k, _ in es]
-        if (len(set(ks)) != len(ks)) != (fl == 5):
-            return "include %s: YAML parser verdict %d does not match 'a repeated key is rejected'" % ([_s(k) for k in ks], fl)
-    if all(wf_key(k) for k in keys):
+        if (not yaml_ok(es)) != (fl == 5):
+            return ("include %s: YAML parser verdict %d does not match 'a repeated key is rejected'" % (
+                [_s(k) for k, _ in es], fl)), "other"
+    complaints = []
+    for path, a, b in zip(paths, d1, d2):
+        for where, d in (("props", a), ("des", b)):
+            # whatever the keys look like: a property never has an empty name and never holds a synthesised '<any>' node
+            for k, v in d:
+                if _has_any_node(v):
+                    complaints.append(("anynode", "%s: property '%s' of module %s holds a synthesised '<any>' address node: %s" % (
+                        where, _s(k), _s(path), v)))
+    if all(wf_entry(k, v) for k, v in entries):
         for path, a, b in zip(paths, d1, d2):
-            m = check_capture(entries, path, a, "props") or check_capture(entries, path, b, "des")
-            if m:
-                return m
+            complaints += check_capture(entries, groups, path, a, "props") + check_capture(entries, groups, path, b, "des")
+    other = [c for c in complaints if c[0] != "known"]
+    if other:
+        return other[0][1], other[0][0]
     if paths:
-        return (check_typed(entries, paths, d1, tops, r1, f1, "props") or
-                check_typed(entries, paths, d2, tops, r2, f2, "des"))
-    return None
+        m = (check_typed(entries, paths, d1, tops, r1, f1, "props") or
+             check_typed(entries, paths, d2, tops, r2, f2, "des"))
+        if m:
+            return m, "other"
+    if complaints:
+        return complaints[0][1], "known"
+    return None, None
+
+
+def _has_any_node(v):
+    return v[0] == 1 and any(k == ANY or _has_any_node(x) for k, x in v[1])
+
+
+def monitor(script, out):
+    """C17 evaluated on the implementation's output alone (the specification, not the model)."""
+    return _monitor(script, out)[0]
 
 
 def known_class(script, out, model_out):
-    """known finding entry_at_wildcard_prefix: one include contains two keys K and K.<any>.R"""
-    if not valid(script):
+    """known finding entry_at_wildcard_prefix, narrowly: (1) the implementation's output equals the model's (the byte-level
+    model reproduces the unchanged code on these inputs, the defect included) and (2) the ONLY complaints are of the finding's
+    own kind: a module does not receive a property that is addressed solely by entries K.<any>.R whose include also holds an
+    entry keyed exactly K.  Any other complaint, and any model/implementation disagreement, is reported normally."""
+    if out is None or (model_out is not None and out != model_out):
         return None
-    groups = parse_groups(script)
-    keys = [k for k, _ in accepted(groups)]
-    if not all(wf_key(k) for k in keys):
-        return None
-    for _, es in groups:
-        ks = [k for k, _ in es]
-        if len(set(ks)) == len(ks) and has_known_pair(ks):
-            return "entry_at_wildcard_prefix"
-    return None
+    msg, kind = _monitor(script, out)
+    return "entry_at_wildcard_prefix" if msg is not None and kind == "known" else None
 
 
 def known_witness(cls):
@@ -852,17 +988,85 @@ def gen_handles(rng):
     return join([inc], ops)
 
 
+def gen_mapped(rng):
+    """mapping-valued entries (hand-nested YAML, flow and block form, with 0..3 real sub-keys): next to a wildcard entry
+    K.<any>.R an entry K: {..} (before or after it, at top level and below a wildcard), plain ones, and the modules that see
+    the mapping as a property (the parent of K), its sub-keys as properties (K itself) and the wildcard entry (K's children)"""
+    base = gen_script(rng, malformed=False)
+    inc, entries, paths, _ = parse(base)
+    hdr, ops = split(base)
+    tail = [o for o in ops if o[0] in (3, 4, 5)]
+    keys = set(k for k, _ in entries)
+    mods = list(paths)
+    val = 800
+
+    def subs():
+        ks = rng.sample([b"mtu", b"mss", b"x", b"log", b"tcp.sack", b"a", "é".encode()], rng.choice([0, 1, 1, 2, 3]))
+        return tuple((k, rng.randint(1, 2000)) for k in ks)
+
+    def addmod(p):
+        if p and all(x and ANY not in x for x in p) and len(p) <= 4:
+            t = b".".join(p)
+            if t not in mods: mods.append(t)
+
+    def inst(segs):
+        return [rng.choice(NAMES[:4]) if x == ANY else x for x in segs]
+    for _ in range(rng.randint(1, 3)):
+        c = rng.random()
+        wild = [k for k, _ in entries if ANY in k.split(b".")[1:]]
+        if c < 0.65:
+            # K next to K.<any>.R
+            if wild and rng.random() < 0.5:
+                kw = rng.choice(wild)
+                segs = kw.split(b".")
+                i = [j for j, x in enumerate(segs) if x == ANY and j > 0][0]
+                K = segs[:i]
+            else:
+                K = [rng.choice(NAMES[:5]) for _ in range(rng.choice([1, 2, 2, 3]))]
+                if rng.random() < 0.3: K[0] = ANY
+                kw = b".".join(K + [ANY, rng.choice(PROPS)])
+                if kw in keys: continue
+                keys.add(kw)
+                e = (kw, val); val += 1
+                entries.insert(rng.randint(0, len(entries)), e)
+            kk = b".".join(K)
+            if kk in keys or K[-1] == ANY: continue
+            keys.add(kk)
+            pos = rng.randint(0, len(entries))
+            entries.insert(pos, (kk, ("M", rng.randint(0, 1), subs())))
+            ik = inst(K)
+            addmod(ik[:-1]); addmod(ik); addmod(ik + [rng.choice(NAMES[:4])])
+        else:
+            K = [rng.choice(NAMES[:5]) for _ in range(rng.choice([1, 2, 3]))]
+            if rng.random() < 0.3: K[rng.randrange(len(K))] = ANY
+            kk = b".".join(K + [rng.choice(PROPS)])
+            if kk in keys: continue
+            keys.add(kk)
+            entries.append((kk, ("M", rng.randint(0, 1), subs())))
+            ik = inst(kk.split(b"."))
+            addmod(ik[:-1]); addmod(ik)
+    ops = [e_entry(k, v) for k, v in entries] + [e_module(p) for p in mods]
+    for _ in range(rng.choice([0, 0, 2, 3])):
+        m = rng.randrange(len(mods))
+        cand = list(spec_src(entries, mods[m]).keys()) or [rng.choice(PROPS)]
+        name = rng.choice(cand)
+        ops.append(rng.choice([e_read(m, name, rng.choice([0, 2])), e_raw(m, name)]))
+    return join([rng.choice([0, 0, 1, len(mods), 99])], ops + tail)
+
+
 def gen(rng, n):
     for i in range(n):
         c = rng.random()
-        if c < 0.18:
+        if c < 0.16:
             yield gen_late(rng)
-        elif c < 0.46:
+        elif c < 0.40:
             yield gen_multi(rng)
-        elif c < 0.66:
+        elif c < 0.57:
             yield gen_handles(rng)
+        elif c < 0.71:
+            yield gen_mapped(rng)
         else:
-            yield gen_script(rng, malformed=(c > 0.90))
+            yield gen_script(rng, malformed=(c > 0.91))
 
 
 def exhaustive():
@@ -920,6 +1124,13 @@ def mechanisms(script, out):
         if inc == 0: m.add("include_before_nodes")
         elif inc >= len(paths): m.add("include_after_nodes")
         else: m.add("include_between_nodes")
+    for k, v in entries:
+        if is_map(v):
+            m.add("mapping_valued_entry")
+            m.add("mapping_block_form" if v[1] % 2 and v[2] else "mapping_flow_form")
+            if not v[2]: m.add("mapping_without_sub_keys")
+            if any(known_pair(k, o) for o in keys):
+                m.add("mapping_valued_entry_at_wildcard_prefix")
     groups = parse_groups(script)
     if len(groups) > 1:
         m.add("several_includes")
